@@ -111,6 +111,22 @@ Section C01.
   Theorem C01_valid_never_panics : forall sv rq,
     valid_server sv = true -> serve_nocache re_match re_replace ip_allow sv rq <> Panicked.
   Proof. exact (valid_never_panics re_match re_replace ip_allow). Qed.
+  (** histories in which pipelines are created, deleted and replaced between requests (no
+      HTTPServer reload): the mapper is read at every request - a matched backend name that
+      does not exist NOW yields 503 whatever was served before, and an existing one is
+      dispatched to the handler registered NOW (identity [h]) *)
+  Theorem C01_mapper_history_503 : forall sv pre m rq p,
+    search_nocache re_match ip_allow sv rq = Route p -> alookup (pe_backend p) m = None ->
+    last (serve_hist re_match re_replace ip_allow sv (pre ++ [(m, rq)])%list) (Panicked, None)
+      = (Failed 503, None).
+  Proof. exact (mapper_history_503 re_match re_replace ip_allow). Qed.
+
+  Theorem C01_mapper_history_dispatch : forall sv pre m rq p h path',
+    search_nocache re_match ip_allow sv rq = Route p -> alookup (pe_backend p) m = Some h ->
+    rewrite re_replace p (rq_path rq) = Some path' ->
+    last (serve_hist re_match re_replace ip_allow sv (pre ++ [(m, rq)])%list) (Panicked, None)
+      = (Dispatched (pe_backend p) path', Some h).
+  Proof. exact (mapper_history_dispatch re_match re_replace ip_allow). Qed.
 End C01.
 
 Print Assumptions C01_loop_refines_spec.
@@ -125,6 +141,8 @@ Print Assumptions C01_unknown_backend_503.
 Print Assumptions C01_match_all_header_semantics.
 Print Assumptions C01_port_ignored.
 Print Assumptions C01_valid_never_panics.
+Print Assumptions C01_mapper_history_503.
+Print Assumptions C01_mapper_history_dispatch.
 
 (** non-vacuity: a concrete rule set on which the clauses are exercised:
     first match skips a header-conditioned entry, 400 / 405 / 404 / 503, prefix and regexp rewrite *)
